@@ -22,9 +22,9 @@ def plan(tier, seed):
     out = [("identity", 0, [])]
     if tier == "quick":
         out += [
-            ("composite-0", 6, [("E5", {"with_typename": False, "kind": "request"}), "E1", "E3"]),
-            ("composite-1", 8, [("E5", {"with_typename": False, "kind": "notification"}), "E2", "E4"]),
-            ("composite-2", 10, ["E1", "E2", "E2", ("E5", {"with_typename": True, "kind": "request"}), "E7", "E6"]),
+            ("composite-0", 8, [("E5", {"with_typename": False, "kind": "request"}), "E1", "E3", ("E3", {"deep": True}), "E8", ("E6", {"both": True})]),
+            ("composite-1", 10, [("E5", {"with_typename": False, "kind": "notification", "dollar": True}), "E2", "E4", "E8", ("E6", {"both": True}), ("E6", {"both": True})]),
+            ("composite-2", 10, ["E1", "E2", "E2", ("E5", {"with_typename": True, "kind": "request"}), "E7", "E6", ("E5", {"with_typename": False, "kind": "request", "dollar": True}), ("E3", {"deep": True})]),
         ]
     else:
         for k in range(int(os.environ.get("VERIF_C06_N", "47"))):
@@ -35,7 +35,7 @@ def plan(tier, seed):
                 forced.append(("E5", {"with_typename": False, "kind": "notification"}))
             if k % 4 == 2:
                 forced.append(("E5", {"with_typename": True, "kind": "request"}))
-            forced.append(["E1", "E2", "E3", "E4", "E6", "E7"][k % 6])
+            forced.append(["E1", "E2", "E3", "E4", "E6", "E7", "E8", ("E3", {"deep": True}), ("E5", {"with_typename": False, "dollar": True}), ("E6", {"both": True})][k % 10])
             out.append(("composite-%d" % k, [2, 4, 8, 12][k % 4], forced))
     return out
 
